@@ -19,6 +19,26 @@ CLAIMED = {
    design="4/C18", technique="contract-based deductive verification: nopanic/decreases obligations over go/ssa, discharged by SMT"),
 }
 
+CLAIMED["C17"] = dict(
+   text=("Deductive proof on the real chooser code, for all size vectors of any length (sizes in [1,2^40), fewer than 2^20 tables): log2 equals the "
+         "floor-log2 table of the statement; sizesToSegments partitions the stack into maximal runs of one size class; "
+         "suggestCompactionSegment returns nil exactly when no two adjacent tables share a size class, and otherwise a contiguous range of "
+         "at least two tables inside the stack; all loops terminate. Proof is the right level: these are per-call postconditions over unbounded inputs."),
+   note=(TRUST + " Not decided by contracts: the amortised depth bound 2*log2(N) and the N*log2(N) rewrite bound for all N are whole-history "
+         "potential-function arguments that no contract on a single call expresses; strict progress of a compaction is part of the C04/C05 commit guard."),
+   design="4/C17", technique="contract-based deductive verification: functional postconditions and loop invariants over go/ssa, discharged by SMT")
+CLAIMED["C03"] = dict(
+   text=("Deductive proof on the real merged-iterator code, for any number of tables and any records: pqLess is the order of the statement "
+         "(key ascending, newer table first among equal keys); the binary-heap invariant is preserved by add and remove, elements are preserved, "
+         "remove returns the root; by an inductive lemma the root is the least entry; nextEntry returns that least entry and leaves only strictly "
+         "greater keys in the queue (so keys come out strictly increasing, each once, older duplicates consumed); Next never yields a deletion "
+         "record when the view suppresses deletions; Merged.seekRecord builds one sub-iterator per table, for the requested record type, and passes "
+         "the view's flag on; NewMerged enforces increasing update-index ranges and one hash id."),
+   note=(TRUST + " Assumed: a sub-iterator's Next does not write the queue of the merged iterator that owns it (ownership); LogRecord.key is a "
+         "function of (RefName, UpdateIndex) (trusted definitional contract). Not decided: that each sub-iterator yields its table's records in "
+         "ascending order from the seek key (that is C01/C02 for table iterators), and the overlay statement as an equality of whole sequences."),
+   design="4/C03", technique="contract-based deductive verification: heap invariant, inductive root-min lemma, merge-step postconditions, discharged by SMT")
+
 NOT_APPLICABLE = {
  "C15": "relational property of two programs in two languages; no deductive verifier for C is installed and rtv reads Go SSA only (DESIGN.md section 4/C15)",
 }
